@@ -114,3 +114,33 @@ class Externals:
         f = z3.Function("zdecompress", z3.SeqSort(z3.IntSort()), z3.SeqSort(z3.IntSort()))
         it.notes.add("pyzstd.decompress: assumed total on the payloads considered (corrupt frames raise ZstdError, outside the claim)")
         return it.assume_wf(SV(TSeq(TInt, bytes_=True), f(b.term)))
+
+    # -- re: only the documented register-index pattern of hugr.qsystem.result is modelled.
+    # match(tag) is an uninterpreted predicate; groups are uninterpreted functions of the tag.  The
+    # structural axioms (tag == name + "[" + digits + "]" (+ "\n"), digits non-empty, decimal) are
+    # stated where used and compared with the real `re` by the bounded regex check.
+    REG_PATTERN = r"^([a-z][\w_]*)\[(\d+)\]$"
+
+    def x_re_compile(self, it, args, kwargs, fr):
+        pat = z3.simplify(args[0].term)
+        if not z3.is_string_value(pat):
+            raise Unsupported("re.compile of a non-literal pattern")
+        return SV(TStr, pat)
+
+    def x_re_match(self, it, args, kwargs, fr):
+        pat = z3.simplify(it.force(args[0], fr).term)
+        if not (z3.is_string_value(pat) and pat.as_string() == self.REG_PATTERN):
+            raise Unsupported(f"re.match with a pattern other than the documented register pattern: {pat}")
+        tag = it.force(args[1], fr)
+        m = z3.Function("re_reg_match", z3.StringSort(), z3.BoolSort())
+        name = z3.Function("re_reg_name", z3.StringSort(), z3.StringSort())
+        digits = z3.Function("re_reg_digits", z3.StringSort(), z3.StringSort())
+        ios = z3.Function("int_of_str", z3.StringSort(), z3.IntSort())
+        it.notes.add("re.match(REG_INDEX_PATTERN, tag) axiomatised: uninterpreted match predicate and groups; int(digits) >= 0 (checked against `re` by the bounded regex check)")
+        if fr.pure:
+            raise Unsupported("re.match in a specification")
+        if it.branch(m(tag.term)):
+            it.assume(ios(digits(tag.term)) >= 0)
+            it.assume(z3.Length(name(tag.term)) >= 1)
+            return VGen("rematch", groups=[SV(TStr, name(tag.term)), SV(TStr, digits(tag.term))])
+        return NONE
